@@ -2,6 +2,8 @@
 // in units/bitstr.rs, here in their assumed rendering
 //@include preamble/bits.rs
 pub type Xbitstr = Bitstr;
+pub assume_specification<T>[ <T as core::convert::From<T>>::from ](t: T) -> (r: T)
+    ensures r == t;
 //@type src/bitstr.rs type BitstrRange
 //@type src/bitstr.rs struct Bitstr
 //@type src/bitstr.rs enum Byteorder keep=PartialEq,Eq,Structural,Clone,Copy
@@ -24,4 +26,6 @@ impl Bitstr {
 //@use bitstr.fns Bitstr::bits_range assumed
 //@use bitstr.fns Bitstr::append assumed
 //@use bitstr.fns Bitstr::invert assumed
+//@use bitstr.fns Bitstr::new assumed
+//@use bitstr.fns "impl From<Vec<u8>> for Bitstr"::from assumed
 }
